@@ -276,6 +276,13 @@ func gen(g *vh.Gen) {
 			g.Emit("scan", st, fmt.Sprint(p), strings.Join(parts, ";"), "pv/padd:"+vh.HS(target), "-")
 		}
 	}
+	// cancellation INSIDE a mailbox with many expired messages (default-like RetentionSleep): the scan finishes the
+	// mailbox's removals and returns promptly — the time a scan may take after the cancel does not grow by a sleep per message
+	for _, n := range []int{150, g.Pick2(37, 400)} {
+		for _, st := range []string{"mem", "file"} {
+			g.Emit("scan", st, "3600", fmt.Sprintf("%s:9000*%d,5;%s:9000,7", vh.HS("big"), n, vh.HS("zz")), "-", fmt.Sprintf("%dr%d", 1+g.Intn(2), 3+g.Intn(8)))
+		}
+	}
 	// cancellation at a callback boundary (with and without interference)
 	for i := 0; i < g.N(15, 250); i++ {
 		p := periods[1+g.Intn(len(periods)-1)]
